@@ -18,6 +18,7 @@ import Proofs.Lemmas.StoreEq
 import Proofs.Lemmas.StoreClient
 import Proofs.Lemmas.StoreLaws
 import Proofs.Lemmas.StoreAlias
+import Proofs.Lemmas.StoreSubclass
 
 set_option linter.unusedSimpArgs false
 
@@ -693,6 +694,45 @@ theorem C10_delete_status_exact (r : Repo) (path : Path) (hinv : Inv r) :
     have hl' : lookupInst e.insts (reqPath (path.ns.getD r.dflt) path) = some s := hl
     rw [hl']
     rfl
+
+/-! ### which instances an enumeration selects: the subclass list of the code -/
+
+/-- **The subclass walks agree.**  The code collects the names of all subclasses of the requested class walking DOWN
+    the class store (`MainProvider._get_subclass_names`, recursively over the direct subclasses, mirrored by
+    `subclassNames` in Model/StoreSubclass.lean) and selects the instances whose class name is in that list or is
+    the requested name (`_get_subclass_list_for_enums`, a NocaseList); the model walks UP the superclass chain of
+    the instance's class (`descends`).  For every class store – any shape of the superclass links, dangling or
+    cyclic links included – whose class names are pairwise different up to case (the class store is a NocaseDict)
+    both select the same class names. -/
+theorem C10_subclass_walk_down_is_up (cs : List Cls) (hu : cs.Pairwise (fun a b => lower a.name ≠ lower b.name))
+    (target c : Name) : inEnumDown cs target c = descends cs cs.length c target :=
+  inEnumDown_eq_descends cs hu target c
+
+/-- … hence the enumerations of the model select exactly the stored instances whose class name is in the subclass
+    list the code computes. -/
+theorem C10_enumeration_selects_by_subclass_list (e : NsEntry)
+    (hu : e.classes.Pairwise (fun a b => lower a.name ≠ lower b.name)) (cls : Name) :
+    e.insts.filter (inEnum e cls) = e.insts.filter (fun s => inEnumDown e.classes cls s.path.cls) := by
+  apply List.filter_congr
+  intro s _
+  unfold inEnum
+  rw [inEnumDown_eq_descends e.classes hu]
+
+/-- non-vacuity: a three-level tree with names in mixed case, and a class outside the tree -/
+def demoTree : List Cls :=
+  [⟨"Base".toList, none, false, []⟩, ⟨"mid".toList, some "BASE".toList, false, []⟩,
+   ⟨"LEAF".toList, some "Mid".toList, false, []⟩, ⟨"Other".toList, none, false, []⟩]
+
+example : demoTree.Pairwise (fun a b => lower a.name ≠ lower b.name) ∧
+    subclassNames demoTree demoTree.length "base".toList = ["mid".toList, "LEAF".toList] ∧
+    inEnumDown demoTree "base".toList "leaf".toList = true ∧ inEnumDown demoTree "base".toList "Other".toList = false := by
+  decide
+
+/-- the hypothesis is needed: with two classes of the same name (impossible in a NocaseDict) the lookup of the upward
+    walk finds the first of them and the two walks differ -/
+example : let cs : List Cls := [⟨"b".toList, none, false, []⟩, ⟨"B".toList, some "A".toList, false, []⟩, ⟨"A".toList, none, false, []⟩]
+    inEnumDown cs "A".toList "B".toList = true ∧ descends cs cs.length "B".toList "A".toList = false := by
+  decide
 
 /-! ### isolation of the objects passed in and handed out -/
 
